@@ -8,6 +8,7 @@ package main
 
 import (
 	"context"
+	"errors"
 	"log/slog"
 	"reflect"
 	"strings"
@@ -190,18 +191,45 @@ func snapPrevOf(c any) prevSnap {
 // is generous; a plain context.WithTimeout is used for calls without losses.
 type scriptCtx struct {
 	wait func() time.Duration
-	last time.Time
+	done chan struct{} // nil: never cancelled
 }
 
-func (c *scriptCtx) Deadline() (time.Time, bool) {
-	c.last = time.Now().Add(c.wait())
-	return c.last, true
+func (c *scriptCtx) Deadline() (time.Time, bool) { return time.Now().Add(c.wait()), true }
+func (c *scriptCtx) Done() <-chan struct{}       { return c.done }
+func (c *scriptCtx) Err() error {
+	select {
+	case <-c.done:
+		return context.Canceled
+	default:
+		return nil
+	}
 }
-func (c *scriptCtx) Done() <-chan struct{} { return nil }
-func (c *scriptCtx) Err() error           { return nil }
-func (c *scriptCtx) Value(any) any        { return nil }
+func (c *scriptCtx) Value(any) any { return nil }
 
-// error classes of the model
+// error classes of the model.  The error values are unexported variables of
+// the packages under test; the harness learns them once per process - the ones of
+// net/ntp by calling the exported validators, the ones of core/client from
+// calibration exchanges (calibrate in main.go) - and compares by identity; the
+// message text is only the last resort.
+var sentinels = map[error]int64{}
+
+func learn(err error, class int64) {
+	if err != nil {
+		if _, has := sentinels[err]; !has {
+			sentinels[err] = class
+		}
+	}
+}
+
+func init() {
+	learn(ntp.ValidateResponseMetadata(&ntp.Packet{}), 3)
+	t := time.Unix(1700000000, 0)
+	learn(ntp.ValidateResponseTimestamps(t, t, t.Add(-1), t), 3)
+	learn(ntp.ValidateResponseTimestamps(t, t, t, t.Add(-1)), 5)
+	var p ntp.Packet
+	learn(ntp.DecodePacket(&p, []byte{1}), 4)
+}
+
 func errClass(err error) int64 {
 	if err == nil {
 		return 0
@@ -209,6 +237,11 @@ func errClass(err error) int64 {
 	type timeout interface{ Timeout() bool }
 	if t, ok := err.(timeout); ok && t.Timeout() {
 		return 1
+	}
+	for e, c := range sentinels {
+		if errors.Is(err, e) {
+			return c
+		}
 	}
 	s := err.Error()
 	switch {
@@ -218,7 +251,7 @@ func errClass(err error) int64 {
 		return 2
 	case strings.Contains(s, "unexpected response structure"):
 		return 3
-	case strings.Contains(s, "unexpected packet size"), strings.Contains(s, "unexpected source"):
+	case strings.Contains(s, "unexpected packet size"), strings.Contains(s, "unexpected source"), strings.Contains(s, "unexpected flags"):
 		return 4
 	case strings.Contains(s, "unexpected system clock behavior"):
 		return 5
